@@ -22,6 +22,9 @@ import (
 var (
 	verifTickers   []chan time.Time
 	verifTickerSeq int
+	// how long a held batch's replies stay on the wire in native runs (the engine fires the timer
+	// when no goroutine can run)
+	verifHoldFor = 300 * time.Millisecond
 )
 
 func verifNewTicker(d time.Duration) *time.Ticker {
@@ -123,7 +126,8 @@ type verifSendRun struct {
 // time over unbuffered channels, the next source item or a tick of one of the
 // three tickers (batch, keep-alive, checkpoint), as chosen by the environment,
 // and finally closes the wait-closer (stop).
-func verifDrive(ro *RedisOutput, st *verifStream, fake *verifFake, txnMode bool, maxTicks int) *verifSendRun {
+func verifDrive(ro *RedisOutput, st *verifStream, fake *verifFake, txnMode bool, maxTicks int, pipelined ...bool) *verifSendRun {
+	isPipeline := len(pipelined) > 0 && pipelined[0]
 	verifTickers = []chan time.Time{make(chan time.Time), make(chan time.Time), make(chan time.Time)}
 	verifTickerSeq = 0
 	sendBuf := make(chan cmdExecution)
@@ -133,19 +137,37 @@ func verifDrive(ro *RedisOutput, st *verifStream, fake *verifFake, txnMode bool,
 	go func() {
 		ticks := 0
 		next := 0
+		released := false
+		defer func() {
+			if fake.holdReceive > 0 && !released {
+				close(fake.releaseReceive)
+			}
+		}()
 		for next < len(st.items) {
 			ev := 0
 			if ticks < maxTicks {
 				ev = verifChoose("event", 4) // 0 = next item, 1..3 = ticker
 			}
 			if ev == 0 {
-				select {
-				case sendBuf <- st.items[next].ce:
-					next++
-					run.consumed = next
-				case <-rw.Done():
-					close(done)
-					return
+				handed := false
+				for !handed {
+					var idle <-chan time.Time
+					if fake.holdReceive > 0 && !released {
+						// the sender may be stuck behind the slow batch: after a while its replies arrive
+						idle = time.After(verifHoldFor)
+					}
+					select {
+					case sendBuf <- st.items[next].ce:
+						next++
+						run.consumed = next
+						handed = true
+					case <-idle:
+						released = true
+						close(fake.releaseReceive)
+					case <-rw.Done():
+						close(done)
+						return
+					}
 				}
 			} else {
 				ticks++
@@ -174,8 +196,13 @@ func verifDrive(ro *RedisOutput, st *verifStream, fake *verifFake, txnMode bool,
 		rw.Close(nil)
 		close(done)
 	}()
-	run.err = ro.sendCmdsBatch(rw, fake, ro.cfg.RunId, sendBuf, txnMode, false)
+	run.err = ro.sendCmdsBatch(rw, fake, ro.cfg.RunId, sendBuf, txnMode, isPipeline)
+	// as RedisOutput.sendAof does: the run's result is the wait-closer's first error (in pipelined
+	// sending the reply-receiver goroutine reports a failed batch there)
 	rw.Close(run.err)
+	if run.err == nil {
+		run.err = rw.Error()
+	}
 	<-done
 	return run
 }
@@ -468,8 +495,15 @@ func verifCheckC09(st *verifStream, run *verifSendRun) {
 }
 
 // VerifSenderTxn / VerifSenderNonTxn: one run from a fresh target.
-func verifSender(txnMode bool) {
+func verifSender(txnMode bool, pipe ...bool) {
+	// blocking sending (Exec per batch) or pipelined sending (Dispatch, replies read by the receiver goroutine)
+	pipelined := len(pipe) > 0 && pipe[0]
 	k := verifParam("K", 3)
+	maxTicks := verifParam("TICKS", 1)
+	if pipelined {
+		k = verifParam("PK", 3)
+		maxTicks = verifParam("PTICKS", 0)
+	}
 	bc := uint(verifRange("batchCount", 1, verifParam("BC", 2)))
 	st := verifGenStream(k, 0, true)
 	fake := verifNewFake()
@@ -486,8 +520,16 @@ func verifSender(txnMode bool) {
 		checkpoint.SetCheckpoint(fake, &checkpoint.CheckpointInfo{Key: "cp", RunId: "rid1", Version: "v", Offset: st.start})
 		seedReqs = len(fake.log)
 	}
-	run := verifDrive(ro, st, fake, txnMode, verifParam("TICKS", 1))
+	if pipelined && verifChoose("slowReplies", 2) == 1 {
+		// a slow but healthy target: the replies of the first dispatched batch stay on the wire until
+		// nothing else can happen (the sender fills its pipeline behind it meanwhile)
+		fake.holdReceive = 1
+		fake.releaseReceive = make(chan struct{})
+		ro.cfg.KeepaliveTicker = 100 * time.Millisecond
+	}
+	run := verifDrive(ro, st, fake, txnMode, maxTicks, pipelined)
 	run.seedReqs = seedReqs
+	verifCover(pipelined && len(fake.log) > 0, "sender.pipelined-run")
 	if parts&1 != 0 {
 		verifAssert(run.err == nil, "C01.sender.error-on-healthy-target")
 		verifCheckC01(st, run, txnMode)
@@ -506,6 +548,57 @@ func verifSender(txnMode bool) {
 
 func VerifSenderTxn()    { verifSender(true) }
 func VerifSenderNonTxn() { verifSender(false) }
+
+// the same with pipelined sending: batches are dispatched, their replies are read by the sender's
+// receiver goroutine; the stop may fall between a batch's dispatch and its hand-over to the receiver
+// VerifSenderInMem (C07, resume-from-breakpoint off): the resume position is kept in the process
+// (RedisOutput.checkpointInMem, what StartPoint answers on the next reconnect) instead of on the
+// target. It is sampled at every request the target receives and at the end: it only ever holds the
+// start offset or the end offset of a consumed item, never the undefined -1, and never decreases.
+func VerifSenderInMem() {
+	txnMode := verifChoose("txnMode", 2) == 1
+	k := verifParam("MK", 3)
+	bc := uint(verifRange("batchCount", 1, verifParam("BC", 2)))
+	st := verifGenStream(k, 0, true)
+	fake := verifNewFake()
+	fake.tagOf = verifTagOf
+	ro := verifNewOutput(txnMode, bc, fake)
+	ro.cfg.EnableResumeFromBreakPoint = false
+	// as setCheckpoint leaves it after the full sync (or a previous incremental run)
+	ro.checkpointInMem = checkpoint.CheckpointInfo{Key: "cp", RunId: "rid1", Version: "v", Offset: st.start}
+	var samples []int64
+	sample := func() {
+		ro.cpGuard.RLock()
+		samples = append(samples, ro.checkpointInMem.Offset)
+		ro.cpGuard.RUnlock()
+	}
+	fake.onReq = func(int) { sample() }
+	run := verifDrive(ro, st, fake, txnMode, verifParam("MTICKS", 1), verifChoose("pipelined", 2) == 1)
+	sample()
+	sp, err := ro.StartPoint(context.Background(), []string{"rid1"})
+	verifAssert(err == nil && sp.RunId == "rid1", "C07.inmem.startpoint-lost")
+	samples = append(samples, sp.Offset)
+	last := st.start
+	for _, v := range samples {
+		isBoundary := v == st.start
+		for i := 0; i < run.consumed && i < len(st.items); i++ {
+			isBoundary = verifOr(isBoundary, v == st.items[i].ce.Offset)
+		}
+		verifAssert(verifOr(isBoundary, v != -1), "C07.inmem.stored-undefined-position")
+		verifAssert(verifOr(isBoundary, v == -1), "C07.inmem.stored-non-boundary")
+		verifAssert(v >= last, "C07.inmem.stored-position-decreased")
+		last = v
+	}
+	for _, r := range fake.log {
+		_, isCp := verifIsOffsetField(r)
+		verifAssert(!isCp, "C07.inmem.position-written-to-target-although-disabled")
+	}
+	verifCover(len(fake.log) > 0 && last > st.start, "c07.inmem.position-advanced")
+	verifReach("sender.inmem.done")
+}
+
+func VerifSenderPipeTxn()    { verifSender(true, true) }
+func VerifSenderPipeNonTxn() { verifSender(false, true) }
 
 // VerifC19SenderRetry (C19, sender level): the target refuses exactly one batch execution with a
 // MOVED redirection and is healthy afterwards. Either the sender reports an error (a restart), or
